@@ -10,7 +10,7 @@ impl Prop for P {
         let mut cases = vec![];
         let nrand = match tier { Tier::Quick => 250, Tier::Thorough => 4000, Tier::Wide => 1000 };
         let sets = crate::c02::standard_keysets(tier, rng, stats, nrand);
-        let geoms = crate::c01::GEOMETRIES;
+        let geoms = crate::c01::geometries();
         for ks in sets {
             let g = if rng.chance(2, 3) { geoms[0] } else { *rng.pick(&geoms) };
             let cap = *rng.pick(&[0usize, 0, 1, 3, 7, 100]);
